@@ -362,12 +362,31 @@ def _package_call(fr: Frame, fi, e, args, kwargs, guard, stmt):
         return anf.opaque("call:" + fi.qualname, *ra, array=any(x.is_array() for x in ra), extra=tuple(names) + ((site,) if site else ()))
     plain = lift(mk, *[amap[n] for n in names])
     refined = _by_return_site(fr, fi, amap, names, mk) if fr.depth < ev.inline_depth and fi.qualname not in ev.no_inline else None
-    if refined is None and fi.qualname not in ev.no_inline and fi.name.startswith("_"):
+    if refined is None and fi.qualname not in ev.no_inline and fi.name.startswith("_") and fi.qualname not in _anchored_private():
         # a private helper kept opaque not by a rule's choice but because its body could not be read here (loops, depth) and
         # not even which of its exits is taken: what it returns is unknown, and no rule knows it by name
         from . import report as _report
         _report.OPAQUE_FALLBACKS.add("call:" + fi.qualname)
     return refined if refined is not None else plain
+
+
+_ANCHORED = None
+
+
+def _anchored_private() -> set:
+    """Private functions the rules know by name (anchors of the properties: the private loops of rdp, the Kneedle worker, the
+    hull comparators): an opaque call of one of them is a value the rules reason about, not a placeholder."""
+    global _ANCHORED
+    if _ANCHORED is None:
+        import glob
+        import os
+        import re
+        names = set()
+        for f in glob.glob(os.path.join(os.path.dirname(__file__), "rules", "*.py")):
+            with open(f, encoding="utf-8") as fh:
+                names |= set(re.findall(r"[\"']([a-z_]+\._[a-z_0-9]+)[\"']", fh.read()))
+        _ANCHORED = names
+    return _ANCHORED
 
 
 def _unknown(x) -> bool:
